@@ -135,6 +135,23 @@ def _positions(tree, payload, out, idxs):
         idxs.add(payload)
 
 
+def _copy_of_self_walked(I, pre, n, p1):
+    """local n is a Bitset whose word array held a copy of self's words when a borrowing iterator constructor
+    (iter_mut and friends: they do not write) took it, and nothing else has touched it before the loop"""
+    for e in pre:
+        if e.kind != "call" or e.extra.get("name") not in ("iter_mut", "as_mut_slice", "as_mut", "deref_mut"):
+            continue
+        a0 = e.args[0] if e.args else None
+        if not (isinstance(a0, tuple) and a0 and a0[0] == "ref" and a0[1] == ("field", ("local", n), 0)):
+            continue
+        v = (e.extra.get("argvals") or [None])[0]
+        src = isinstance(v, tuple) and v and v[0] == "load" and v[1] == ("m0",) and v[2] in (("field", ("deref", p1), 0), ("field", p1, 0))
+        src = src or v == ("proj", 0, p1)
+        ent = [en.get(n) for ens in I.loop_entry.values() for en in ens]
+        return bool(src) and bool(ent) and all(x == ("out", e.extra.get("uid"), n) for x in ent)
+    return False
+
+
 def _wordwise_semantic(crate, I, b, tr, backs):
     """every loop round touches ONE position k of the word arrays: dest[k] = self.data[k] OP rhs.data[k]
     (or dest[k] OP= rhs.data[k], or dest[k] = !dest[k]); the walk covers all N words (full iterators over the
@@ -171,7 +188,11 @@ def _wordwise_semantic(crate, I, b, tr, backs):
         itv = (nx[0].extra.get("argvals") or [None])[0]
         if isinstance(itv, tuple) and itv and itv[0] == "phi":
             # the iterator is loop-carried state: its structure is the value it entered the loop with
-            ents = [en.get(itv[2]) for hd, ens in I.loop_entry.items() for en in ens if I.uid(hd) == itv[1]]
+            ents, work = [], [I]
+            while work:
+                x_ = work.pop()
+                ents.extend(en.get(itv[2]) for hd, ens in x_.loop_entry.items() for en in ens if x_.uid(hd) == itv[1])
+                work.extend(getattr(x_, "inlined_subs", []))
             itv = ents[0] if ents else None
         elem_idx = None
         comp, idxs = {}, set()
@@ -223,6 +244,10 @@ def _wordwise_semantic(crate, I, b, tr, backs):
             ok = len(wops) == 1 and (wops[0].extra.get("trait") or "").split("::")[-1] == tr
             if ok:
                 l_, r_ = val_pos(wops[0].args[0]), val_pos(wops[0].args[1])
+                if isinstance(l_, tuple) and l_[0] == "local" and _copy_of_self_walked(I, evs[:li], l_[1], p1):
+                    # the result array starts as a copy of self's words and is combined in place: position k still
+                    # holds self.data[k] when round k reads it (every round writes its own position only)
+                    l_ = "self" if [pos_of(e.place) for e in stores] == [("local", l_[1])] else None
                 ok = l_ == "self" and r_ == "rhs"
                 # the result goes to position k of the result array
                 tgt = [e for e in stores if e.val == wops[0].res]
@@ -319,6 +344,28 @@ def _wordwise_alt(crate, I, b, tr, backs):
             ok = ok and full and dst_ok and src_ok
         if seen:
             return ok, "for i in 0..N: self.data[i] %s rhs.data[i]" % tr
+    # --- Not as data.iter_mut().for_each(|w| *w = !*w)
+    if tr == "Not" and not backs:
+        for st in I.final_states:
+            fe = [e for e in st.event_list() if e.kind == "call" and e.extra.get("name") == "for_each"]
+            if len(fe) != 1 or len(fe[0].args) < 2:
+                continue
+            src, clo = fe[0].args[0], fe[0].args[1]
+            evs_ = st.event_list()
+            whole = isinstance(src, tuple) and src and src[0] == "call" and str(src[1]).endswith("iter_mut") and any(x[0] == "field" and x[2] == 0 and (x[1] in (p1, ("deref", p1), ("local", 1)) or util.cell_origin(evs_, x[1]) == ("local", 1)) for x in subterms(src))
+            ok = False
+            if whole and clo[0] == "agg" and isinstance(clo[1], tuple) and clo[1][0] == "closure":
+                cb = crate.by_key.get(clo[1][1])
+                if cb is not None:
+                    Ic = util.analyse(cb)
+                    w = ("deref", ("param", 2, Ic.names.get(2)))
+                    ok = bool(Ic.final_states)
+                    for fs in Ic.final_states:
+                        stores = [e for e in fs.event_list() if e.kind == "store"]
+                        ok = ok and len(stores) == 1 and stores[0].place == w and stores[0].val[0] == "un" and stores[0].val[1] == "Not" and stores[0].val[2][0] == "load" and stores[0].val[2][2] == w
+            ret = util.ret_term(st)
+            ok = ok and isinstance(ret, tuple) and ret and ((ret[0] == "load" and util.cell_origin(evs_, ret[2]) == ("local", 1)) or ret in (p1, ("out", fe[0].extra.get("uid"), 1)))
+            return ok, "every word complemented in place (iter_mut().for_each)"
     # --- Not as data.map(|w| !w)
     if tr == "Not" and not backs:
         for st in I.final_states:
@@ -347,6 +394,7 @@ def check(col, prog, tier, profile, fixture=None):
     helpers = util.private_helpers(crate, "Bitset") + [f for f in crate.bodies if not f.is_closure and f.kind == "Fn" and f.container is None and f.vis != "pub" and not util.self_recursive(f)]
     newb = util.opt_body(crate, "Bitset::<N>::new")
     An = util.analyser(helpers + ([newb] if newb is not None else []))
+    An3 = util.analyser(helpers + ([newb] if newb is not None else []), features=("fncall", "mutlocal"))
     col.rule("K1" + sfx, "word = x div 64 and bit = x mod 64 of the same x in all point operations and the iterator", floor=5)
     col.rule("K2" + sfx, "set |= mask, remove &= !mask, flip ^= mask, test extracts the bit", floor=4)
     col.rule("K3" + sfx, "operators apply the same trait's word operator over the full zip; Not complements every word", floor=7)
@@ -491,8 +539,11 @@ def check(col, prog, tier, profile, fixture=None):
         for it in imp["items"]:
             if it["key"] in crate.by_key:
                 b = crate.by_key[it["key"]]
-        I = An(b)
+        I = An3(b)
         backs = [s for l in I.backedge_states.values() for s in l]
+        if not backs:
+            # the loop over the words may sit in a private helper (possibly taking the word operation as a closure)
+            backs = [s for _uid, l in I.inl_back_groups for s in l]
         key = "%s|wordwise" % fk(b)
         alt = _wordwise_semantic(crate, I, b, tr, backs)
         if alt is None or not alt[0]:
